@@ -100,7 +100,7 @@ pub fn decode_op(u: &mut U, nkeys: u8, metas: u8, lifecycle: bool, damage: bool,
         17 => Op::CreateActive,
         18 => Op::Restore,
         19 => Op::ForceUpdate(pick(u, &[Pred::Always, Pred::Never, Pred::Records3, Pred::NoActive])),
-        20 => Op::Offload { level: u.int_in_range(0u8..=2).unwrap_or(0) },
+        20 => Op::Offload { level: u.int_in_range(0u8..=2).unwrap_or(0), need: 0 },
         21 => Op::Fsync,
         22 => Op::Free,
         _ => Op::Restore,
@@ -220,7 +220,7 @@ pub fn filters(data: &[u8]) {
     if u.arbitrary().unwrap_or(false) {
         let keys = |u: &mut U, n: usize| -> Vec<Vec<u8>> { (0..u.int_in_range(0..=n).unwrap_or(0)).map(|_| { let l = u.int_in_range(0usize..=20).unwrap_or(1); (0..l).map(|_| u.arbitrary().unwrap_or(0)).collect() }).collect() };
         let k4 = |u: &mut U, n: usize| -> Vec<[u8; 4]> { (0..u.int_in_range(0..=n).unwrap_or(0)).map(|_| u.arbitrary().unwrap_or([0; 4])).collect() };
-        let case = props::c10::BloomCase { elements: u.int_in_range(0usize..=3000).unwrap_or(10), hashers: u.int_in_range(0usize..=5).unwrap_or(2), max_bits: u.int_in_range(0usize..=5000).unwrap_or(100), fpr_millis: pick(&mut u, &[0u32, 1, 10, 500, 999, 1000]), a: keys(&mut u, 60), b: keys(&mut u, 20), probes: keys(&mut u, 20), file_offset: u.int_in_range(0u16..=699).unwrap_or(0), ka: k4(&mut u, 30), kb: k4(&mut u, 15), kprobes: k4(&mut u, 15), combined_with_bloom: u.arbitrary().unwrap_or(true), b_hashers: if u.arbitrary::<bool>().unwrap_or(false) { Some(u.int_in_range(0usize..=5).unwrap_or(2)) } else { None } };
+        let case = props::c10::BloomCase { elements: u.int_in_range(0usize..=3000).unwrap_or(10), hashers: u.int_in_range(0usize..=5).unwrap_or(2), max_bits: u.int_in_range(0usize..=5000).unwrap_or(100), fpr_millis: pick(&mut u, &[0u32, 1, 10, 500, 999, 1000]), a: keys(&mut u, 60), b: keys(&mut u, 20), probes: keys(&mut u, 20), file_offset: u.int_in_range(0u16..=699).unwrap_or(0), ka: k4(&mut u, 30), kb: k4(&mut u, 15), kprobes: k4(&mut u, 15), combined_with_bloom: u.arbitrary().unwrap_or(true), b_hashers: if u.arbitrary::<bool>().unwrap_or(false) { Some(u.int_in_range(0usize..=5).unwrap_or(2)) } else { None }, legacy_cfg: if u.arbitrary::<bool>().unwrap_or(false) { Some((u.int_in_range(0usize..=3000).unwrap_or(10), u.int_in_range(0usize..=5000).unwrap_or(100), pick(&mut u, &[0u32, 1, 10, 500, 1000]))) } else { None } };
         if let Err(e) = finish(&dir, || props::c10::run_bloom(&case, &dir)) {
             report("C10", "bloom", &case, &e);
         }
